@@ -307,3 +307,19 @@ pub fn note_line(line: &str) {
         }
     }
 }
+
+/// `Bundle::try_from(&[u8])` together with the other public ways to decode the same bytes
+/// (`TryFrom<Vec<u8>>`, and `serde_cbor::from_reader` when the slice decodes): the first disagreement, if any.
+pub fn decode_ways(bytes: &[u8]) -> (Option<Result<bp7::Bundle, bp7::error::Error>>, Option<String>) {
+    use std::convert::TryFrom;
+    let r = no_panic(|| bp7::Bundle::try_from(bytes));
+    let v = no_panic(|| bp7::Bundle::try_from(bytes.to_vec()));
+    let class = |x: &Option<Result<bp7::Bundle, bp7::error::Error>>| match x { None => "panic".to_string(), Some(Err(_)) => "err".to_string(), Some(Ok(b)) => format!("ok {:?}", b) };
+    let mut diff = None;
+    if class(&r) != class(&v) { diff = Some(format!("Bundle::try_from(&[u8]) and Bundle::try_from(Vec<u8>) disagree on the same bytes: {} vs {}", clip(&class(&r)), clip(&class(&v)))); }
+    if let (None, Some(Ok(b))) = (&diff, &r) {
+        let rd = no_panic(|| serde_cbor::from_reader::<bp7::Bundle, _>(bytes).ok()).flatten();
+        if rd.as_ref() != Some(b) { diff = Some("Bundle::try_from(&[u8]) accepts the bytes, serde_cbor::from_reader yields something else".to_string()); }
+    }
+    (r, diff)
+}
